@@ -17,7 +17,7 @@ MODULES = ["XpmVerif.Properties.C14"]
 
 
 def prove(ctx):
-    msgs = [hashflags.generate(common.REPO, common.LEAN)]
+    msgs = [hashflags.generate(common.REPO, common.LEAN, probe=identlib.loop_flag_probe(ctx))]
     common.check_proofs(ctx, MODULES, translate_msgs=msgs)
 
 
